@@ -3,13 +3,18 @@
    gates at any distance) and either sweep order the loop ends, applies every gate of circuit 1 exactly once from the left and
    every gate of circuit 2 exactly once, conjugated, from the right, in orders that preserve all dependencies, so the value held is
    U1.U2^dagger in every semantics where gates on disjoint qubits commute.
-   PARTIAL: that one left/right application on the merged two-site tensor (and a long-range gate's MPO, with the SVD
-   re-splitting) multiplies the represented operator by that gate is tied numerically (dense product for arbitrary pairs). *)
+   One application is mechanised too, over any commutative ring with an involution: on a chain whose site carries the physical index
+   (output digits, input digits) — the merged tensor theta of update_mpo — contracting a gate with the output digits replaces every
+   entry of the represented operator by the entry of G.O, contracting the conjugated gate with the input digits by the entry of
+   O.G^dagger, and the chain with the merged tensor has the entries of the chain with the two original tensors.
+   PARTIAL: that numpy's einsum/SVD compute these contractions and an exact re-splitting (no truncation above the threshold), and the
+   long-range gate's MPO, are tied numerically (dense product for arbitrary pairs). *)
 From Coq Require Import Reals PrimFloat.
 From Coquelicot Require Import Coquelicot.
 From Coq Require Import List.
 From Yaqs Require Import Base.Num Model.Verdict Proofs.NoiseAttribP Proofs.VerdictP Gen.SmallGen Proofs.SmallGenP.
 From Yaqs Require Import Model.DigitalLoop Proofs.DigitalLoopP Model.Checker Proofs.CheckerP.
+From Yaqs Require LinAlg.TT.
 
 Theorem C04_verdict_sound : forall t n f e, (t / 2 ^ n < f - e)%R -> verdict RN t n f e = false.
 Proof. exact verdict_sound. Qed.
@@ -61,6 +66,32 @@ Theorem C04_long_range_pairs_cover_gate : forall lo d k, (2 <= d)%nat -> (k < d)
   exists n, In n (lr_pairs lo d) /\ ((lo + k = n)%nat \/ (lo + k = S n)%nat).
 Proof. exact lr_pairs_cover. Qed.
 Print Assumptions C04_long_range_pairs_cover_gate.
+
+(* entries of the operator after one application (LinAlg/TT.v): p = o * D + i is the physical index of the merged site *)
+Theorem C04_left_application_is_operator_product : forall (K : Type) (k0 k1 : K) (kadd kmul ksub : K -> K -> K) (kopp : K -> K),
+  ring_theory k0 k1 kadd kmul ksub kopp (@eq K) ->
+  forall pre s post (G : nat -> nat -> K) D spre p spost, (0 < D)%nat -> TT.d K s = (D * D)%nat -> length spre = length pre ->
+  TT.amp K k0 k1 kadd kmul (pre ++ TT.rotate K k0 kadd kmul (TT.lact K k0 k1 kmul G D) s :: post) (spre ++ p :: spost)
+  = TT.bsum K k0 kadd D (fun o' => kmul (G (p / D)%nat o') (TT.amp K k0 k1 kadd kmul (pre ++ s :: post) (spre ++ (o' * D + p mod D)%nat :: spost))).
+Proof. exact TT.mpo_left_application. Qed.
+Print Assumptions C04_left_application_is_operator_product.
+
+Theorem C04_right_application_is_product_with_adjoint : forall (K : Type) (k0 k1 : K) (kadd kmul ksub : K -> K -> K) (kopp : K -> K) (cj : K -> K),
+  ring_theory k0 k1 kadd kmul ksub kopp (@eq K) ->
+  forall pre s post (G : nat -> nat -> K) D spre p spost, (0 < D)%nat -> TT.d K s = (D * D)%nat -> (p < D * D)%nat -> length spre = length pre ->
+  TT.amp K k0 k1 kadd kmul (pre ++ TT.rotate K k0 kadd kmul (TT.ract K k0 k1 kmul cj G D) s :: post) (spre ++ p :: spost)
+  = TT.bsum K k0 kadd D (fun i' => kmul (cj (G (p mod D)%nat i')) (TT.amp K k0 k1 kadd kmul (pre ++ s :: post) (spre ++ ((p / D) * D + i')%nat :: spost))).
+Proof. exact TT.mpo_right_application. Qed.
+Print Assumptions C04_right_application_is_product_with_adjoint.
+
+Theorem C04_merged_tensor_keeps_entries : forall (K : Type) (k0 k1 : K) (kadd kmul ksub : K -> K -> K) (kopp : K -> K),
+  ring_theory k0 k1 kadd kmul ksub kopp (@eq K) ->
+  forall pre s1 s2 post dd spre q spost, TT.chiR K s1 = TT.chiL K s2 -> length spre = length pre ->
+  TT.amp K k0 k1 kadd kmul (pre ++ TT.merge_mpo K k0 kadd kmul dd s1 s2 :: post) (spre ++ q :: spost)
+  = TT.amp K k0 k1 kadd kmul (pre ++ s1 :: s2 :: post)
+      (spre ++ ((q / (dd * dd) / dd) * dd + (q mod (dd * dd)) / dd)%nat :: ((q / (dd * dd) mod dd) * dd + (q mod (dd * dd)) mod dd)%nat :: spost).
+Proof. exact TT.merged_mpo_amplitudes. Qed.
+Print Assumptions C04_merged_tensor_keeps_entries.
 
 Local Open Scope nat_scope.
 Example C04_checker_example :
